@@ -429,6 +429,10 @@ func main() {
 				sched.Hold("ds.wait")
 			}
 			cl, err := e2e.DialHTTP(addr)
+			for i := 0; err != nil && i < 8; i++ { // a loaded machine may miss the 1 s dial deadline
+				time.Sleep(200 * time.Millisecond)
+				cl, err = e2e.DialHTTP(addr)
+			}
 			vh.Must(err, "dial proxy")
 			vh.Must(cl.Send(method, prefix+"x?tok="+tok, hdr, body), "send")
 
